@@ -24,8 +24,7 @@ import vlib
 THEOREMS = [
     # K per kernel
     "cmp_pointwise", "and_pointwise", "or_pointwise_partial", "or_pointwise_unsound",
-    "not_pointwise", "select_pointwise_partial", "select_pointwise_unsound",
-    "select_else_null_unsound", "arith_pointwise_partial", "div_pointwise_partial",
+    "not_pointwise", "select_pointwise", "arith_pointwise_partial", "div_pointwise_partial",
     "arith_add_pointwise_unsound", "rem_zero_divisor_unsound", "rem_null_divisor_faults",
     "div_null_slot_faults",
     # raw invariant
@@ -38,7 +37,7 @@ THEOREMS = [
     "batch_independent_binary", "batch_independent_arith", "batch_independent_or",
     "batch_independent_and", "batch_independent_cmp",
     # reason tags = forced hypotheses (node level); casts; IS NULL
-    "arith_no_tag", "or_no_tag", "select_no_tag", "cast_pointwise", "isnull_pointwise",
+    "arith_no_tag", "or_no_tag", "select_abs", "cast_pointwise", "isnull_pointwise",
     # whole expression trees
     "evalK_len", "eval_tree_pointwise", "like_abs", "substring_abs", "replace_abs", "repeat_abs",
     "concat_abs", "neg_abs",
@@ -54,8 +53,6 @@ THEOREMS = [
 # The witnesses of the `…_unsound` theorems, as requests (replayed on the implementation).
 WITNESSES = [
     ("or_pointwise_unsound", "(k 1 (or #0 #1) (bool nt) (bool vf))"),
-    ("select_pointwise_unsound", "(k 1 (if #0 #1 #2) (bool vf) (i32 n0) (i32 v7))"),
-    ("select_else_null_unsound", "(k 1 (if #0 #1 #2) (bool vf) (i32 v1) (i32 n0))"),
     ("arith_add_pointwise_unsound", "(k 1 (+ #0 #1) (i32 n2147483647) (i32 v1))"),
     ("null_slot_never_faults_unsound", "(k 2 (+ #0 #1) (i32 v1 n2147483647) (i32 v2 v1))"),
     ("rem_zero_divisor_unsound", "(k 1 (% #0 #1) (i32 v1) (i32 v0))"),
